@@ -371,6 +371,7 @@ class Scheduler():
     def clear(self):
         while not self.queue.empty():
             self.queue.pop()
+        self._expired.clear()  # Expired but not awaken yet, pending too.
 
     def empty(self):
         return self.queue.empty()
@@ -408,11 +409,11 @@ class Scheduler():
                     break
                 else:
                     self._seconds = self.queue.peek()[0]
-            for time, item in self._expired:
+            while self._expired:  # A task can clear the scheduler.
+                time, item = self._expired.pop(0)
                 self._seconds = time
                 self._beats = self._clock.secs2beats(time)
                 self._wakeup(item)
-            self._expired.clear()
         self._seconds = value
         self._beats = self._clock.secs2beats(value)
 
